@@ -28,7 +28,6 @@ using namespace ace_time;
 
 Print VerifSerial;
 extern "C" unsigned long millis() { return 0; }
-long ace_time_verif_basic_dropped = 0;
 
 struct Call { char hk; int zi; int proc; std::string op; long arg; };
 
